@@ -860,7 +860,20 @@ func (rt *Runtime) exec(pi int, in []reflect.Value) (outs []reflect.Value, serr 
 		simrt.Yield(-2)
 		return nil, nil, true
 	}
+	nilIface := p.OutForm != FormBuilt && rt.fault("nil_iface", pi, n)
 	for _, s := range p.Out {
+		if nilIface && IsIface(s.Type) {
+			// a nil interface is a legal result value: what is behind it is the zero value
+			rec.Out = append(rec.Out, 0)
+			outs = append(outs, reflect.Zero(Types[s.Type]))
+			if !rec.NilStruct {
+				rec.NilStruct = true
+				rt.FaultsFired["nil_iface"]++
+				rt.NilStructOps[op] = append(rt.NilStructOps[op], pi)
+				rt.Sim.Event("fault-niliface", uint64(pi), uint64(n))
+			}
+			continue
+		}
 		id := rt.newToken(Token{Kind: TokProduced, Label: s.Label, Party: pi, Exec: n, Op: op, Inputs: rec.In})
 		rec.Out = append(rec.Out, id)
 		t := s.Type
